@@ -233,7 +233,7 @@ def judge_import(case):
 
 
 def plan(tier, seed):
-    n = 8000 if tier == "quick" else 80000
+    n = 24000 if tier == "quick" else 160000
     return [{"kind": "cases", "n": n // 16, "seed": common.seed_for(PROP, tier, seed, i)}
             for i in range(16)]
 
